@@ -303,7 +303,7 @@ PROPS['C13'] = {
              {'name': 'Os', 'flavour': 'plain-Os', 'driver': 'drv_c13', 'env': {'PV_SCALE': '8'}, 'shards': 2, 'timeout': 1800},
              {'name': 'O3-native', 'flavour': 'plain-O3', 'driver': 'drv_c13', 'env': {'PV_SCALE': '8'}, 'shards': 2, 'timeout': 1800}],
     'require': {'walks.matched_model': 3000, 'exhaustive.sequences': 11110, 'ops.create': 10000, 'ops.load': 10000, 'ops.decode': 20000, 'ops.crypt': 10000, 'ops.reinject': 3000,
-                'ops.enable': 5000, 'ops.free': 5000, 'observations': 100000, 'static_storage.checks': 100000, 'walks.with_address_reusing_allocator': 1500, 'walks.with_libc_malloc_and_injected_free': 300, 'ops.non_constructor_with_failing_allocator': 500, 'max.static_storage.ranges_of_library_objects_monitored': 2},
+                'ops.enable': 5000, 'ops.free': 5000, 'observations': 100000, 'static_storage.checks': 100000, 'walks.with_address_reusing_allocator': 1500, 'walks.with_libc_malloc_and_injected_free': 300, 'direct.sequences': 2500, 'direct.same_address_two_seeds': 2000, 'ops.non_constructor_with_failing_allocator': 500, 'max.static_storage.ranges_of_library_objects_monitored': 2},
 }
 MANIFEST_TEXT['C13'] = {'technique': 'runtime monitoring: lock-step execution of operation sequences against an executable abstract model (history + model), junk-filling allocator, ASan/UBSan (NDEBUG and assertion-enabled builds)',
     'text': 'Random walks of 50-200 operations over up to six live seeds (create with arbitrary arguments, load, both decoders on model phrases / other slots\' phrases / grammar strings / wrong coins, crypt, encode, keygen, getters, free, free(NULL), enable_features, re-injection of a second stub set, armed allocation failures) are executed on the library and on the abstract model; every status, output buffer, getter value, key and dependency tag is compared at once and all other live seeds are re-observed (store image, periodically all observers) after every step. All sequences up to length 4 (quick) / 5 (thorough) over a 10-symbol alphabet are enumerated completely. In addition the static and thread-local storage of the library objects (ranges from the link map) is compared around every call: outside polyseed_inject/polyseed_enable_features nothing may change (no hidden state). Walks alternate between a fresh-address and an address-reusing allocator and arm allocation failures before any kind of call; a clang-built stripe repeats the walks.',
